@@ -748,3 +748,97 @@ C12_INIT_PLATES = dict(
     implicit_return="tt",
 )
 ALL += [C12_INIT_OBS, C12_INIT_PLATES]
+
+# ---- C18: the randomised steps as resumption programs (Model/RandProg.v).  The translator's monad is `rprog`
+# (prog req ans (result T)): a primitive whose template contains a request is a call on the function's OWN generator argument
+# `rng`; every other call must be one of the request-free primitives below or is refused - so a module-level numpy.random
+# function, an argument-less default_rng(), or handing `rng` to another callee cannot be translated.
+_C18 = dict(out="SrcRand.v", imports="Model.RandProg",
+            monad=dict(type="rprog", bind="dop", ok="rp_ret", fold="rp_fold", unwrap="rp_unwrap", bind_quote=""))
+_RNG_RANDOM = ("rng.random()", "!rp_random", "Z")                                       # the double as its order key
+_RNG_CHOICE = ("rng.choice(__a, __n, replace=False)", "!rp_choice {a} {n}", "list Z", {"a": "list Z", "n": "Z"})
+_RNG_CHOICE_N = ("rng.choice(__n, size=__k, replace=False)", "!rp_choice_n {n} {k}", "list Z", {"n": "Z", "k": "Z"})
+
+# RandomScorer.score: `plates` is the dict's key list in iteration (= insertion) order; the Plate values are not read
+C18_RANDOM_SCORER = dict(
+    _C18, file="src/batchie/scoring/rand.py", cls="RandomScorer", func="score", name="src_random_scorer_score",
+    pyparams=["self", "plates", "distance_matrix", "samples", "rng", "progress_bar"],
+    unused_params=["self", "distance_matrix", "samples", "progress_bar"],
+    params=[("plates", "list Z")], returns="dict", vars={"scores": "dict", "k": "Z"},
+    effectful_dictcomp=True,
+    prims=[("plates.keys()", "plates'", "list Z"), _RNG_RANDOM],
+)
+
+# The two hold-out splits.  The screen is an object of an ARBITRARY type Scr with a size (and plates); the two Screen(...)
+# constructions are ARBITRARY request-free functions mk_keep / mk_hold of the screen and the selection vector (what they
+# build is C11's business).  The float `fraction` is the exact rational num/den, den > 0 (it occurs only inside primitives).
+_SCR = {"s": "Scr"}
+_KEEP_COLS = ("treatment_names=__s.treatment_names[~__v], treatment_doses=__s.treatment_doses[~__v], observations=__s.observations[~__v], "
+              "sample_names=__s.sample_names[~__v], plate_names=__s.plate_names[~__v], control_treatment_name=__s.control_treatment_name, "
+              "observation_mask=__s.observation_mask[~__v], ")
+_HOLD_COLS = ("treatment_names=__s.treatment_names[__v], treatment_doses=__s.treatment_doses[__v], observations=__s.observations[__v], "
+              "sample_names=__s.sample_names[__v], plate_names=__s.plate_names[__v], control_treatment_name=__s.control_treatment_name, "
+              "observation_mask=np.ones(np.count_nonzero(__v), dtype=bool), ")
+_SV = {"s": "Scr", "v": "list bool"}
+_HOLDOUT_PRIMS = [
+    ("fraction < 0", "num <? 0", "bool"),
+    ("fraction > 1", "den <? num", "bool"),
+    ("np.zeros(__s.size, dtype=bool)", "mask_zeros (scr_size {s})", "list bool", _SCR),
+    ("math.ceil(__n * fraction)", "ceil_frac {n} num den", "Z", {"n": "Z"}),      # over exact rationals (see harness/c18.py ASSUMPTIONS)
+    _RNG_CHOICE,
+]
+_HOLDOUT = dict(
+    _C18, file="src/batchie/retrospective.py", pyparams=["screen", "fraction", "rng"], returns="(Scr * Scr)", overload=True,
+    typed_loop_vars=True,
+    assign_effects=[("selection_vector[__i] = True", "selection_vector'", "!rp_lift (mask_set_true {state} {i})")],
+    raises=[("fraction must be between 0 and 1", "rp_raise 5")],
+)
+C18_RANDOM_HOLDOUT = dict(
+    _HOLDOUT, func="create_random_holdout", name="src_random_holdout",
+    params=[("Scr", "Type"), ("scr_size", "Scr -> Z"), ("mk_keep", "Scr -> list bool -> result Scr"),
+            ("mk_hold", "Scr -> list bool -> result Scr"), ("num", "Z"), ("den", "Z"), ("screen", "Scr")],
+    vars={"selection_vector": "list bool", "indices": "list Z", "keep_screen": "Scr", "holdout_screen": "Scr"},
+    prims=_HOLDOUT_PRIMS + [
+        ("np.arange(__s.size)", "zrange (scr_size {s})", "list Z", _SCR),
+        ("__s.size", "scr_size {s}", "Z", _SCR),
+        ("Screen(" + _KEEP_COLS + "sample_mapping=__s.sample_mapping, treatment_mapping=__s.treatment_mapping)",
+         "!rp_lift (mk_keep {s} {v})", "Scr", _SV),
+        ("Screen(" + _HOLD_COLS + "sample_mapping=__s.sample_mapping, treatment_mapping=__s.treatment_mapping)",
+         "!rp_lift (mk_hold {s} {v})", "Scr", _SV),
+    ],
+)
+# a plate is (np.arange(screen.size)[plate.selection_vector], plate.is_observed): Model/RandProg.plate_t
+_PL = {"p": "plate_t"}
+C18_BALANCED_HOLDOUT = dict(
+    _HOLDOUT, func="create_plate_balanced_holdout_set_among_masked_plates", name="src_balanced_holdout_prog",
+    params=[("Scr", "Type"), ("scr_size", "Scr -> Z"), ("scr_plates", "Scr -> list plate_t"), ("mk_keep", "Scr -> list bool -> result Scr"),
+            ("mk_hold", "Scr -> list bool -> result Scr"), ("num", "Z"), ("den", "Z"), ("screen", "Scr")],
+    vars={"selection_vector": "list bool", "plate": "plate_t", "plate_indices": "list Z", "n_sample": "Z",
+          "downsampled_indices": "list Z", "keep_screen": "Scr", "holdout_screen": "Scr"},
+    prims=_HOLDOUT_PRIMS + [
+        ("__s.plates", "scr_plates {s}", "list plate_t", _SCR),
+        ("np.arange(__s.size)[__p.selection_vector]", "fst {p}", "list Z", {"s": "Scr", "p": "plate_t"}),
+        ("__p.is_observed", "snd {p}", "bool", _PL),
+        ("__p.size", "zlen (fst {p})", "Z", _PL),               # Plate.size = number of selected rows
+        ("Screen(" + _KEEP_COLS + "treatment_mapping=__s.treatment_mapping, sample_mapping=__s.sample_mapping)",
+         "!rp_lift (mk_keep {s} {v})", "Scr", _SV),
+        ("Screen(" + _HOLD_COLS + "treatment_mapping=__s.treatment_mapping, sample_mapping=__s.sample_mapping)",
+         "!rp_lift (mk_hold {s} {v})", "Scr", _SV),
+    ],
+)
+# dbal_fast_gauss_scoring_vectorized: the run of statements that decides how many theta triples to use and draws them.
+# (The rest of the function is float arithmetic on the drawn indices, C05's subject; it is not part of this link.)
+C18_DBAL_SUBSAMPLE = dict(
+    _C18, file="src/batchie/scoring/gaussian_dbal.py", func="dbal_fast_gauss_scoring_vectorized", name="src_dbal_subsample",
+    pyparams=["predictions", "variances", "distance_matrix", "rng", "max_combos", "distance_factor"], pydefaults=["5000", "1.0"],
+    body_slice=("n_theta_combinations = comb(n_thetas, 3, exact=True)",
+                "unpacked_indices = rng.choice(n_theta_combinations, size=n_combos, replace=False)"),
+    params=[("n_thetas", "Z"), ("max_combos", "Z")], live_vars=["n_thetas"], returns="list Z",
+    implicit_return="{unpacked_indices}", int_truthiness=True,
+    vars={"n_theta_combinations": "Z", "n_combos": "Z", "unpacked_indices": "list Z"},
+    prims=[("comb(__n, 3, exact=True)", "binom3 {n}", "Z", {"n": "Z"}),       # scipy.special.comb, exact: C(n, 3), 0 below 3
+           ("min(__a, __b)", "Z.min {a} {b}", "Z", {"a": "Z", "b": "Z"}),
+           _RNG_CHOICE_N],
+    raises=[("Need at least 3 thetas", "rp_raise 4")],
+)
+ALL += [C18_RANDOM_SCORER, C18_RANDOM_HOLDOUT, C18_BALANCED_HOLDOUT, C18_DBAL_SUBSAMPLE]
